@@ -215,6 +215,94 @@ def delim_contracts(state, cfg, doc):
     return {"sig": tuple((t.type, tuple((c.type, c.level) for c in (t.children or []))) for t in toks), "fail": fails}
 
 
+# ---------------------------------------------------------------------------- C13: nested execution at line boundaries
+C13_DOCS = ["intro\n\n    indented block\n\n    # not a heading\n\noutro\n", "- a\n  - b *c*\n\n> q `d`\n", "a|b\n-|-\n1|2\n", "[r]: /u\n\n[r] ![i](/s) <http://x.y>\n",
+            "plain\n", "# h\n\n```\ncode\n```\n", "*a **b** c* ~~s~~ \\* &amp; \"q\" -- (c)\n", "1. x\n2. y\n\n***\n<div>\nraw\n</div>\n"]
+
+
+def gen_c13(tier):
+    import itertools
+
+    pairs = list(itertools.product(range(len(C13_DOCS)), repeat=2))
+    if tier == "quick":
+        pairs = [(a, b) for a, b in pairs if (a + 2 * b) % 5 == 0]
+    for a, b in pairs:
+        for fresh in (True, False):
+            yield (a, b, fresh, tier)
+
+
+def c13_preempt(state, cfg, case):
+    """case = (index of A, index of B, fresh): render(A) on one instance is suspended at *every* line boundary inside the
+    library (sys.settrace) and render(B) runs to completion on the same instance before A resumes - every interleaving in
+    which B is atomic.  With fresh=True the instance has never parsed before (compiled rule chains not yet built, so the
+    publication of Ruler.__cache__ lies inside the window).  Both results must equal the sequential ones, and the instance
+    must behave like a fresh one afterwards.  Bounded stand-in for the interference-freedom argument of C13."""
+    import sys
+
+    a, b, fresh, tier = case
+    A, B = C13_DOCS[a], C13_DOCS[b]
+    ref = U.make_md(cfg)
+    want_a, want_b = ref.render(A), ref.render(B)
+    fails = []
+    # number of line events of A inside the library
+    def count_lines(md):
+        n = [0]
+
+        def tr(frame, event, arg):
+            if "markdown_it" not in frame.f_code.co_filename:
+                return None
+            if event == "line":
+                n[0] += 1
+            return tr
+
+        sys.settrace(tr)
+        try:
+            md.render(A)
+        finally:
+            sys.settrace(None)
+        return n[0]
+
+    total = count_lines(U.make_md(cfg))
+    stride = max(1, total // (40 if tier != "thorough" else 400))
+    points = 0
+    for at in range(0, total, stride):
+        md = U.make_md(cfg)
+        if not fresh:
+            md.render("warm *up*\n")
+        seen = [0]
+        got_b = [None]
+
+        def tr(frame, event, arg, _md=md):
+            if "markdown_it" not in frame.f_code.co_filename:
+                return None
+            if event == "line":
+                if seen[0] == at and got_b[0] is None:
+                    sys.settrace(None)
+                    try:
+                        got_b[0] = _md.render(B)
+                    finally:
+                        sys.settrace(tr)
+                seen[0] += 1
+            return tr
+
+        sys.settrace(tr)
+        try:
+            got_a = md.render(A)
+        finally:
+            sys.settrace(None)
+        points += 1
+        if got_b[0] is not None and got_b[0] != want_b:
+            fails.append({"what": f"render(B) run while render(A) was suspended at library line event #{at} returned {got_b[0][:60]!r}, sequentially {want_b[:60]!r} (A={A!r}, B={B!r}, fresh={fresh})", "key": "C13/nested-B"})
+            break
+        if got_a != want_a:
+            fails.append({"what": f"render(A) resumed after a nested render(B) at line event #{at} returned {got_a[:60]!r}, sequentially {want_a[:60]!r} (A={A!r}, B={B!r}, fresh={fresh})", "key": "C13/resumed-A"})
+            break
+        if md.render(B) != want_b:
+            fails.append({"what": f"instance differs from a fresh one after the nested run at line event #{at} (A={A!r}, B={B!r})", "key": "C13/after"})
+            break
+    return {"sig": (a, b, fresh, points), "fail": fails}
+
+
 # ---------------------------------------------------------------------------- C11: Ruler histories
 def _ruler_ref_filter(rules, chain):
     return [r.fn for r in rules if r.enabled and (chain == "" or chain in r.alt)]
